@@ -167,6 +167,29 @@ def state_time_rule(repo, res, RULE="RT-TIME"):
             res.check(RULE, "%s: create_state_node(%s, .., time_step=%s)" % (qn, st_txt, t_txt), t_txt == st_txt + ".time_step", wmod, c, "%s: state %s written with time %s" % (qn, st_txt, t_txt), "the time written for a state is not the state's own time step: a trajectory whose states are not consecutive (or an initial state at another time) reads back at other times", qualname=qn)
 
 
+def value_kind_rule(repo, res, RULE="RT-KIND"):
+    """create_exact_node_* hand out an <exact> element and create_interval_node_* the pair <intervalStart> /
+    <intervalEnd> on every path: which of the two a value is written as is decided by the kind of the value, never by
+    its numbers (an interval whose bounds print alike is still an interval — the reader builds the kind it finds)."""
+    wmod = repo.mod("commonroad/common/writer/file_writer_xml.py")
+    want = {"create_exact_node_float": {"exact"}, "create_exact_node_int": {"exact"}, "create_interval_node_float": {"intervalStart", "intervalEnd"}, "create_interval_node_int": {"intervalStart", "intervalEnd"}}
+    for name, tags in want.items():
+        fn = wmod.functions.get(name)
+        if fn is None:
+            raise AnalysisError("writer helper %s missing" % name)
+        seen, other = set(), []
+        for c in ast.walk(fn):
+            if isinstance(c, ast.Call) and isinstance(c.func, ast.Attribute) and c.func.attr in ("Element", "SubElement") and c.args:
+                t = c.args[0] if c.func.attr == "Element" else (c.args[1] if len(c.args) > 1 else None)
+                if isinstance(t, ast.Constant) and isinstance(t.value, str):
+                    seen.add(t.value)
+            if isinstance(c, ast.Call) and isinstance(c.func, ast.Name) and c.func.id in want and c.func.id != name and want[c.func.id] != tags:
+                other.append(c)
+        bad = sorted(seen - tags)
+        node = other[0] if other else fn
+        res.check(RULE, "%s only builds %s" % (name, sorted(tags)), not bad and not other, wmod, node, "%s also builds %s" % (name, bad or [norm(o.func) for o in other]), "a value of one kind is written as the other kind for some numbers (an interval as an exact value or the reverse): it reads back as a different kind of value", qualname=name)
+
+
 def loop_variable_rule(repo, res, RULE, rel=None):
     """every loop of the XML reader over elements found in the document (`findall`, `iter`, children) reads its loop
     variable: a body that looks the element up again on the parent (`parent.find(tag)`) reads the *first* such element
@@ -208,6 +231,8 @@ def run(repo, res, tier):
     res.rule("RT-NAMEMAP", "attribute-name maps of writer and reader agree / invert each other", 40)
     res.rule("RT-ENUM", "text<->enum / boolean encodings are mutually inverse and exhaustive", 25)
     res.rule("RT-ORDER", "ordered collections keep their order; x,y <-> indices 0,1", 12)
+    res.rule("RT-KIND", "the exact / interval helpers of the writer build elements of their own kind only", 4)
+    value_kind_rule(repo, res)
     res.rule("RT-TIME", "the time written for a state is the state's own time step at every call of create_state_node", 4)
     state_time_rule(repo, res)
     res.rule("RT-PREC", "the number formatter keeps precision.decimals fractional digits on every path", 2)
